@@ -50,6 +50,8 @@ class Run:
         self.distinct = set()
         self.mismatches = []   # (stage, shard dir, mismatch dict)
         self.notes = []
+        self.tree_drift = 0
+        self.tree_dumps = 0
         self.exhaustive_parts = []
         self.bins = {}
 
@@ -388,6 +390,9 @@ def validate_shard(run, wd, trace_module, trace_file, props, workers=1, deque=Fa
         d = [l for l in out.splitlines() if l.startswith('"DRIFT ')]
         run.notes.append('instrumentation drift: %d call(s) without the expected access reports, e.g. %s' % (len(d), d[0][:200]))
         log('NOTE instrumentation drift (not a verdict): ' + d[0][:200])
+    nd = out.count('"TREE-DRIFT ')
+    if nd:
+        run.tree_drift += nd
     for line in out.splitlines():
         if line.startswith('"MISMATCH '):
             mism.append(parse_mismatch(line))
@@ -448,6 +453,8 @@ def collect_samples(run, trace):
                 continue
             if len(run.samples) < 3 and len(cur) < 12:
                 cur.append(e)
+            if ev == 'dump':
+                run.tree_dumps += 1
             if nontrivial(e):
                 run.distinct.add(hashlib.md5(line.encode()).digest())
     if cur and len(run.samples) < 3:
@@ -602,6 +609,7 @@ def write_evidence(run, violations, known_hits, rule, assumptions, extra=None):
         'tlc_runs': len(run.tlc_cmds), 'tlc_cmds_sample': run.tlc_cmds[:6],
         'known_findings_reported': known_hits,
         'notes': run.notes[:5],
+        'tree_shapes_compared_with_Tree_tla': run.tree_dumps, 'tree_shape_differences_reported_as_drift': run.tree_drift,
     }
     if extra:
         cov.update(extra)
